@@ -6,7 +6,8 @@ or after `!is_routable(ip)` held, and those paths return `false`; the limiter's
 verdict is the negation of TokenBucket::take; take() spends a token only behind
 `tokens >= 1.0` and returns true only there; refill() caps the balance with
 min(.., capacity) and credits whole elapsed seconds times the rate; who may write
-the balance.  Not decided: the numeric admission bound over arbitrary timelines
+the balance; the bucket table only grows (no eviction that would refund tokens).
+Not decided:  the numeric admission bound over arbitrary timelines
 (floating-point arithmetic over runtime values)."""
 import re
 
